@@ -12,6 +12,24 @@ import (
 type Cond struct {
 	V    ssa.Value
 	True bool
+	// Via: the condition was tested in another function, and is implied by the outcome of this call of the function under
+	// examination (nil for the function's own conditions and for those that hold on entry).
+	Via *ssa.Call
+	// Entry: the condition was tested by the callers, at every call site: it holds from the entry of the function.
+	Entry bool
+}
+
+// Anchor is the instruction of the function under examination at which the condition was established: the call whose
+// outcome implies it, or the instruction that computed it; nil for a condition that holds from the entry.
+func (c Cond) Anchor() ssa.Instruction {
+	if c.Via != nil {
+		return c.Via
+	}
+	if c.Entry {
+		return nil
+	}
+	in, _ := c.V.(ssa.Instruction)
+	return in
 }
 
 // CondsAt returns the branch conditions that are known on entry to b: for every dominator-tree ancestor d of b
@@ -42,6 +60,10 @@ func condsAt(b *ssa.BasicBlock, depth int) []Cond {
 			continue
 		}
 		out = append(out, expandCond(ifi.Cond, p.Succs[0] == d, depth)...)
+	}
+	if fn := b.Parent(); fn != nil && len(fn.Blocks) > 0 {
+		// what holds at every call site of an unexported function holds on its entry
+		out = append(out, entryFacts(fn, depth)...)
 	}
 	return out
 }
@@ -78,7 +100,9 @@ func expandCond(v ssa.Value, truth bool, depth int) []Cond {
 		}
 		break
 	}
-	out := []Cond{{v, truth}}
+	out := []Cond{{V: v, True: truth}}
+	// the outcome of a call to a function of the module: what holds on every way out of it that gives this outcome
+	out = append(out, resultFacts(v, truth, depth)...)
 	phi, ok := v.(*ssa.Phi)
 	if !ok || depth > 8 {
 		return out
@@ -212,9 +236,118 @@ func ConstString(v ssa.Value) (string, bool) {
 	return constant.StringVal(c.Value), true
 }
 
-// ReturnsOf lists the Return instructions of fn.
-func ReturnsOf(fn *ssa.Function) []*ssa.Return {
-	var out []*ssa.Return
+// Ret is one way out of a function: a Return instruction together with the values it returns on that way. A return
+// whose results are merged from several assignments (`var err error; if c { err = a } else { err = b }; return err` - in
+// SSA form the results are phis of the return's block) is one way out per merged edge, exactly like the early returns
+// it could have been written with: Val gives the value assigned on that edge, and Block the block the edge comes from,
+// so that the branch facts (CondsAt) and block states of a way out are those of the place where its values were chosen.
+type Ret struct {
+	*ssa.Return
+	vals []ssa.Value
+	from *ssa.BasicBlock
+	path []*ssa.BasicBlock // the merge blocks passed after from, up to and including the block of the Return
+}
+
+// Next is the block this way out enters when it leaves Block() (nil if the Return is in Block() itself).
+func (r Ret) Next() *ssa.BasicBlock {
+	if len(r.path) == 0 {
+		return nil
+	}
+	return r.path[0]
+}
+
+// Conds are the branch conditions that hold on this way out: those on entry to Block(), and those of the branch that
+// leaves it towards the return.
+func (r Ret) Conds() []Cond {
+	out := CondsAt(r.from)
+	if n := r.Next(); n != nil {
+		out = append(out, edgeConds(r.from, n, 0)...)
+	}
+	return out
+}
+
+// edgeKeys: for a way out that leaves its block over a conditional edge, a key that stands for the edge in the maps that
+// MustHold (and the rules' mustHoldGen) compute: the fact holds there if it holds at the end of the block or the edge
+// establishes it.
+var edgeKeys = map[[2]*ssa.BasicBlock]*ssa.BasicBlock{}
+
+// Key is the key of this way out in a map computed by MustHold: Block(), or the key of the conditional edge over which
+// the way out leaves Block().
+func (r Ret) Key() *ssa.BasicBlock {
+	n := r.Next()
+	if n == nil || len(r.from.Succs) < 2 || r.from.Succs[0] == r.from.Succs[1] {
+		return r.from
+	}
+	e := [2]*ssa.BasicBlock{r.from, n}
+	if edgeKeys[e] == nil {
+		edgeKeys[e] = &ssa.BasicBlock{Index: r.from.Index, Comment: "edge"}
+	}
+	return edgeKeys[e]
+}
+
+// EdgeKeysOf lists the conditional edges of fn over which ways out leave their block, with their keys.
+func EdgeKeysOf(fn *ssa.Function) (edges [][2]*ssa.BasicBlock, keys []*ssa.BasicBlock) {
+	for _, r := range ReturnsOf(fn) {
+		if k := r.Key(); k != r.from {
+			dup := false
+			for _, x := range keys {
+				if x == k {
+					dup = true
+				}
+			}
+			if !dup {
+				edges = append(edges, [2]*ssa.BasicBlock{r.from, r.Next()})
+				keys = append(keys, k)
+			}
+		}
+	}
+	return
+}
+
+// RetNonNil: result #i of this way out is certainly not nil.
+func (m *Module) RetNonNil(r Ret, i int) bool {
+	if m.provablyNonNil(r.vals[i], r.from, 0) {
+		return true
+	}
+	if n := r.Next(); n != nil {
+		for _, c := range edgeConds(r.from, n, 0) {
+			if y, neq, ok := NilCmp(c.V); ok && neq == c.True && y == r.vals[i] {
+				return true
+			}
+		}
+	}
+	return false
+}
+
+// Before lists the instructions that run on this way out, from the start of Block() to the Return.
+func (r Ret) Before() []ssa.Instruction {
+	var out []ssa.Instruction
+	for _, b := range append([]*ssa.BasicBlock{r.from}, r.path...) {
+		for _, in := range b.Instrs {
+			if in == ssa.Instruction(r.Return) {
+				return out
+			}
+			out = append(out, in)
+		}
+	}
+	return out
+}
+
+// Block is the block in which the returned values were chosen (the block of the Return itself if it names them).
+func (r Ret) Block() *ssa.BasicBlock { return r.from }
+
+// RetBlock is the block of the Return instruction.
+func (r Ret) RetBlock() *ssa.BasicBlock { return r.Return.Block() }
+
+// Val is result #i on this way out.
+func (r Ret) Val(i int) ssa.Value { return r.vals[i] }
+
+// Merged reports whether this way out is one edge of a return with merged results.
+func (r Ret) Merged() bool { return r.from != r.Return.Block() }
+
+// ReturnsOf lists the ways out of fn.
+func ReturnsOf(fn *ssa.Function) []Ret {
+	var out []Ret
 	for _, b := range fn.Blocks {
 		if len(b.Instrs) == 0 {
 			continue
@@ -223,8 +356,55 @@ func ReturnsOf(fn *ssa.Function) []*ssa.Return {
 			if b == fn.Recover && len(b.Preds) == 0 {
 				continue // only reached after a recovered panic
 			}
-			out = append(out, r)
+			vals := make([]ssa.Value, len(r.Results))
+			for i := range r.Results {
+				vals[i] = rawRetVal(r, i)
+			}
+			out = append(out, splitRet(Ret{Return: r, vals: vals, from: b}, 0)...)
 		}
+	}
+	return out
+}
+
+// splitRet resolves the results that are phis of the block the way out comes from into one way out per incoming edge.
+func splitRet(r Ret, depth int) []Ret {
+	b := r.from
+	if depth > 4 || len(b.Preds) < 2 || len(b.Preds) > 16 {
+		return []Ret{r}
+	}
+	// only a block that does nothing but merge and return (or pass on to the return): phis, the spill of named results
+	// for deferred calls, the return
+	if b != r.Return.Block() {
+		for _, in := range b.Instrs {
+			switch in.(type) {
+			case *ssa.Phi, *ssa.Jump:
+			default:
+				return []Ret{r}
+			}
+		}
+	}
+	merged := false
+	for _, v := range r.vals {
+		if phi, ok := v.(*ssa.Phi); ok && phi.Block() == b {
+			merged = true
+		}
+	}
+	if !merged {
+		return []Ret{r}
+	}
+	var out []Ret
+	for i, p := range b.Preds {
+		vals := make([]ssa.Value, len(r.vals))
+		for j, v := range r.vals {
+			vals[j] = v
+			if phi, ok := v.(*ssa.Phi); ok && phi.Block() == b {
+				vals[j] = phi.Edges[i]
+			}
+		}
+		if p == b {
+			return []Ret{r}
+		}
+		out = append(out, splitRet(Ret{Return: r.Return, vals: vals, from: p, path: append([]*ssa.BasicBlock{b}, r.path...)}, depth+1)...)
 	}
 	return out
 }
@@ -265,7 +445,17 @@ func Unwrap(v ssa.Value) ssa.Value {
 // RetVal returns result #i of a Return, looking through the spill that go/ssa introduces for functions with
 // defers (`*t0 = v; rundefers; t1 = *t0; return t1`): if the result is a load from a local whose last store in
 // the same block precedes it, the stored value is returned.
-func RetVal(r *ssa.Return, i int) ssa.Value {
+func RetVal(ret any, i int) ssa.Value {
+	switch r := ret.(type) {
+	case Ret:
+		return r.vals[i]
+	case *ssa.Return:
+		return rawRetVal(r, i)
+	}
+	panic("RetVal: not a return")
+}
+
+func rawRetVal(r *ssa.Return, i int) ssa.Value {
 	v := r.Results[i]
 	ld, ok := v.(*ssa.UnOp)
 	if !ok || ld.Op != token.MUL {
@@ -303,7 +493,7 @@ func MustHold(fn *ssa.Function, est func(Cond) bool) map[*ssa.BasicBlock]bool {
 	for _, b := range fn.Blocks {
 		in[b] = true
 	}
-	in[fn.Blocks[0]] = false
+	in[fn.Blocks[0]] = entryHolds(fn, est)
 	if fn.Recover != nil {
 		in[fn.Recover] = false
 	}
@@ -341,6 +531,11 @@ func MustHold(fn *ssa.Function, est func(Cond) bool) map[*ssa.BasicBlock]bool {
 			}
 		}
 	}
+	// the ways out that leave their block over a conditional edge (see Ret.Key)
+	edges, keys := EdgeKeysOf(fn)
+	for i, e := range edges {
+		in[keys[i]] = in[e[0]] || edge(e[0], e[1])
+	}
 	return in
 }
 
@@ -367,4 +562,331 @@ func EdgesWhere(fn *ssa.Function, v ssa.Value, truth bool) []*ssa.BasicBlock {
 		}
 	}
 	return out
+}
+
+// entryHolds: the fact holds on entry to fn because it holds at every call site of fn (an unexported function that is
+// only ever run by plain static calls).
+var entryInProgress = map[*ssa.Function]bool{}
+
+func entryHolds(fn *ssa.Function, est func(Cond) bool) bool {
+	if entryInProgress[fn] || len(entryInProgress) > 4 {
+		return false
+	}
+	sites := PlainSites(fn)
+	if len(sites) == 0 {
+		return false
+	}
+	entryInProgress[fn] = true
+	defer delete(entryInProgress, fn)
+	for _, call := range sites {
+		if !MustHold(call.Parent(), est)[call.Block()] {
+			return false
+		}
+	}
+	return true
+}
+
+// AcceptedConds lists the conditions of fn (those of its branches, those implied by the outcomes of the calls it tests,
+// and those that hold on its entry) that est accepts: the places where a fact that MustHold reports was established.
+func AcceptedConds(fn *ssa.Function, est func(Cond) bool) []Cond {
+	var out []Cond
+	seen := map[Cond]bool{}
+	add := func(cs []Cond) {
+		for _, c := range cs {
+			if !seen[c] && est(c) {
+				seen[c] = true
+				out = append(out, c)
+			}
+		}
+	}
+	for _, p := range fn.Blocks {
+		if len(p.Instrs) == 0 {
+			continue
+		}
+		ifi, ok := p.Instrs[len(p.Instrs)-1].(*ssa.If)
+		if !ok || p.Succs[0] == p.Succs[1] {
+			continue
+		}
+		add(expandCond(ifi.Cond, true, 0))
+		add(expandCond(ifi.Cond, false, 0))
+	}
+	add(entryFacts(fn, 0))
+	return out
+}
+
+// FlagReach: some path from the edge p->s reaches a block accepted by target, where the path is consistent with the
+// boolean flags it sets: a bool phi takes the constant of the edge the path came over, and a branch on a flag whose
+// value is known is followed only to the side that agrees (`found = true; break` ... `if !found { reject }` has no path
+// from the assignment to the reject). Other conditions are not interpreted.
+func FlagReach(p, s *ssa.BasicBlock, target func(*ssa.BasicBlock) bool) bool {
+	type state struct {
+		b   *ssa.BasicBlock
+		env string
+	}
+	seen := map[state]bool{}
+	encode := func(env map[*ssa.Phi]bool) string {
+		if len(env) == 0 {
+			return ""
+		}
+		var keys []string
+		for k, v := range env {
+			t := "0"
+			if v {
+				t = "1"
+			}
+			keys = append(keys, k.Name()+"="+t)
+		}
+		sortStrings(keys)
+		out := ""
+		for _, k := range keys {
+			out += k + ";"
+		}
+		return out
+	}
+	var walk func(from, b *ssa.BasicBlock, env map[*ssa.Phi]bool, depth int) bool
+	walk = func(from, b *ssa.BasicBlock, env map[*ssa.Phi]bool, depth int) bool {
+		if depth > 400 {
+			return true // give up: assume reachable
+		}
+		// enter b over the edge from->b
+		idx := -1
+		for i, q := range b.Preds {
+			if q == from {
+				idx = i
+			}
+		}
+		next := map[*ssa.Phi]bool{}
+		for k, v := range env {
+			next[k] = v
+		}
+		for _, in := range b.Instrs {
+			phi, ok := in.(*ssa.Phi)
+			if !ok {
+				break
+			}
+			if bt, ok := phi.Type().Underlying().(*types.Basic); !ok || bt.Kind() != types.Bool || idx < 0 {
+				continue
+			}
+			switch e := phi.Edges[idx].(type) {
+			case *ssa.Const:
+				if e.Value != nil && e.Value.Kind() == constant.Bool {
+					next[phi] = constant.BoolVal(e.Value)
+				} else {
+					delete(next, phi)
+				}
+			case *ssa.Phi:
+				if v, known := env[e]; known {
+					next[phi] = v
+				} else {
+					delete(next, phi)
+				}
+			default:
+				delete(next, phi)
+			}
+		}
+		st := state{b, encode(next)}
+		if seen[st] {
+			return false
+		}
+		seen[st] = true
+		if target(b) {
+			return true
+		}
+		if len(b.Instrs) > 0 {
+			if ifi, ok := b.Instrs[len(b.Instrs)-1].(*ssa.If); ok && b.Succs[0] != b.Succs[1] {
+				for _, c := range expandCond(ifi.Cond, true, 9) { // depth 9: no phi decoding, no call boundaries
+					if phi, isPhi := c.V.(*ssa.Phi); isPhi {
+						if v, known := next[phi]; known {
+							// the condition is true exactly when phi == c.True
+							if v == c.True {
+								return walk(b, b.Succs[0], next, depth+1)
+							}
+							return walk(b, b.Succs[1], next, depth+1)
+						}
+					}
+					break
+				}
+			}
+		}
+		for _, sc := range b.Succs {
+			if walk(b, sc, next, depth+1) {
+				return true
+			}
+		}
+		return false
+	}
+	return walk(p, s, map[*ssa.Phi]bool{}, 0)
+}
+
+func sortStrings(a []string) {
+	for i := 1; i < len(a); i++ {
+		for j := i; j > 0 && a[j] < a[j-1]; j-- {
+			a[j], a[j-1] = a[j-1], a[j]
+		}
+	}
+}
+
+// ReturnInstrs lists the Return instructions of fn (the exits of the function, whatever they return).
+func ReturnInstrs(fn *ssa.Function) []*ssa.Return {
+	var out []*ssa.Return
+	seen := map[*ssa.Return]bool{}
+	for _, r := range ReturnsOf(fn) {
+		if !seen[r.Return] {
+			seen[r.Return] = true
+			out = append(out, r.Return)
+		}
+	}
+	return out
+}
+
+// EqConst decodes a condition that compares a value with a string constant: `x == "s"` or `x != "s"`, either operand
+// order, under either polarity. eq tells whether the condition establishes x == s.
+func EqConst(c Cond) (x ssa.Value, s string, eq bool, ok bool) {
+	bin, isBin := c.V.(*ssa.BinOp)
+	if !isBin || (bin.Op != token.EQL && bin.Op != token.NEQ) {
+		return nil, "", false, false
+	}
+	if k, isStr := ConstString(bin.Y); isStr {
+		return bin.X, k, (bin.Op == token.EQL) == c.True, true
+	}
+	if k, isStr := ConstString(bin.X); isStr {
+		return bin.Y, k, (bin.Op == token.EQL) == c.True, true
+	}
+	return nil, "", false, false
+}
+
+// RecordSources: v reads field #f of an element of a local slice of records (`for _, r := range records { use(r.f) }`):
+// the values stored into that field of the records the function appends to the slice - what travels through the
+// collection. ok is false if v is no such read, or the collection is filled in a way this does not follow.
+func RecordSources(v ssa.Value) (srcs []ssa.Value, ok bool) {
+	var field int
+	var elem ssa.Value
+	switch x := v.(type) {
+	case *ssa.Field: // r.f with r a loaded element
+		field, elem = x.Field, x.X
+	case *ssa.UnOp: // *(&elem.f)
+		fa, isFA := x.X.(*ssa.FieldAddr)
+		if !isFA || x.Op != token.MUL {
+			return nil, false
+		}
+		field, elem = fa.Field, fa.X
+	default:
+		return nil, false
+	}
+	var coll ssa.Value
+	if al, isAlloc := elem.(*ssa.Alloc); isAlloc {
+		// the loop variable, kept in a local: what the loop stores into it
+		var stored ssa.Value
+		n := 0
+		if refs := al.Referrers(); refs != nil {
+			for _, r := range *refs {
+				if st, isStore := r.(*ssa.Store); isStore && st.Addr == ssa.Value(al) {
+					n++
+					stored = st.Val
+				}
+			}
+		}
+		if n == 1 {
+			elem = stored
+		}
+	}
+	switch e := elem.(type) {
+	case *ssa.UnOp: // load of &coll[i]
+		ia, isIA := e.X.(*ssa.IndexAddr)
+		if !isIA {
+			return nil, false
+		}
+		coll = ia.X
+	case *ssa.IndexAddr:
+		coll = e.X
+	default:
+		return nil, false
+	}
+	if _, isSlice := coll.Type().Underlying().(*types.Slice); !isSlice {
+		return nil, false
+	}
+	// the values the collection can be: make([]T, ...), append(coll', records...), phis of those
+	seen := map[ssa.Value]bool{}
+	good := true
+	var walk func(c ssa.Value)
+	var record func(r ssa.Value)
+	record = func(r ssa.Value) {
+		// a record value: load of a local composite literal whose field is stored once
+		ld, isLoad := r.(*ssa.UnOp)
+		if !isLoad {
+			good = false
+			return
+		}
+		al, isAlloc := ld.X.(*ssa.Alloc)
+		if !isAlloc || al.Referrers() == nil {
+			good = false
+			return
+		}
+		found := false
+		for _, ref := range *al.Referrers() {
+			fa, isFA := ref.(*ssa.FieldAddr)
+			if !isFA || fa.Field != field || fa.Referrers() == nil {
+				continue
+			}
+			for _, r2 := range *fa.Referrers() {
+				if st, isStore := r2.(*ssa.Store); isStore && st.Addr == ssa.Value(fa) {
+					srcs = append(srcs, st.Val)
+					found = true
+				}
+			}
+		}
+		if !found {
+			good = false // the field keeps its zero value: not a flow this follows
+		}
+	}
+	walk = func(c ssa.Value) {
+		if seen[c] || !good {
+			return
+		}
+		seen[c] = true
+		switch x := c.(type) {
+		case *ssa.Phi:
+			for _, e := range x.Edges {
+				walk(e)
+			}
+		case *ssa.MakeSlice:
+		case *ssa.Const:
+		case *ssa.Call:
+			bi, isBuiltin := x.Call.Value.(*ssa.Builtin)
+			if !isBuiltin || bi.Name() != "append" || len(x.Call.Args) != 2 {
+				good = false
+				return
+			}
+			walk(x.Call.Args[0])
+			// the appended records: a slice of a fresh array into which they are stored
+			sl, isSl := x.Call.Args[1].(*ssa.Slice)
+			if !isSl {
+				good = false
+				return
+			}
+			arr, isAlloc := sl.X.(*ssa.Alloc)
+			if !isAlloc || arr.Referrers() == nil {
+				good = false
+				return
+			}
+			for _, ref := range *arr.Referrers() {
+				ia, isIA := ref.(*ssa.IndexAddr)
+				if !isIA || ia.Referrers() == nil {
+					continue
+				}
+				for _, r2 := range *ia.Referrers() {
+					if st, isStore := r2.(*ssa.Store); isStore && st.Addr == ssa.Value(ia) {
+						record(st.Val)
+					}
+				}
+			}
+		default:
+			good = false
+		}
+	}
+	walk(coll)
+	if !good || len(srcs) == 0 {
+		return nil, false
+	}
+	return srcs, true
 }
